@@ -23,14 +23,16 @@ vars == <<mb, bins, res>>
 (***************************************************************************)
 (* Universe.                                                               *)
 (***************************************************************************)
-PeersOf(m) == IF m = 4 THEN {<<0, 1>>, <<0, 2>>, <<1, 1>>, <<2, 1>>, <<3, 1>>, <<5, 1>>}
-              ELSE {<<0, 1>>, <<0, 2>>, <<1, 1>>, <<m - 2, 1>>, <<m - 1, 1>>, <<m + 1, 1>>}
+\* two peers in bin 0, one in bin 1, and around the cap: order mb-1 (last bin), mb (first capped order)
+\* and beyond; with mb = 4 every bin can be occupied
+PeersOf(m) == IF m = 4 THEN {<<0, 1>>, <<0, 2>>, <<1, 1>>, <<2, 1>>, <<3, 1>>, <<4, 1>>}
+              ELSE {<<0, 1>>, <<0, 2>>, <<1, 1>>, <<m - 1, 1>>, <<m, 1>>, <<m + 2, 1>>}
 
 BinOf(m, p) == IF p[1] >= m THEN m - 1 ELSE p[1]
 
 \* batches given to Add: empty, single, every pair (duplicates included), triples over three peers
 Batches(m) ==
-  LET P == PeersOf(m)  T == {<<0, 1>>, <<0, 2>>, <<m + 1, 1>>}
+  LET P == PeersOf(m)  T == {<<0, 1>>, <<0, 2>>, <<m, 1>>}
   IN {<<>>} \cup {<<a>> : a \in P} \cup {<<a, b>> : a \in P, b \in P} \cup {<<a, b, c>> : a \in T, b \in T, c \in T}
 
 \* callback scripts of an iteration: what the callback answers at its at-th invocation
@@ -196,22 +198,35 @@ IsSet == /\ \A b \in DOMAIN bins : \A i, j \in 1..Len(bins[b]) : bins[b][i] = bi
          /\ \A b \in DOMAIN bins : \A i \in 1..Len(bins[b]) : BinOf(mb, bins[b][i]) = b
 
 \* an iteration, characterised without VisitCounts: bins in order, every peer at most once, a bin is
-\* left early only where the script says so
-IterContract ==
-  res.op = "iter" =>
-    LET v == res.visited
-        pos(b) == CHOOSE k \in 1..mb : BinOrder(mb, res.dir)[k] = b
+\* left early only where the script says so.  Stated over EVERY iteration of the alphabet at the
+\* current state, so that the design check can hide `res` (VIEW) without losing any of them.
+IterContractFor(dir, kind, at) ==
+    LET v == IterVisited(mb, bins, dir, kind, at)
+        err == IterErr(mb, bins, dir, kind, at)
+        pos(b) == CHOOSE k \in 1..mb : BinOrder(mb, dir)[k] = b
     IN /\ \A i \in 1..Len(v) : v[i][1] \in BinSet(bins, v[i][2])
        /\ \A i, j \in 1..Len(v) : i < j => v[i][1] # v[j][1] /\ pos(v[i][2]) <= pos(v[j][2])
-       /\ (res.kind = "none" => {v[i][1] : i \in 1..Len(v)} = Stored(bins))
-       /\ (res.kind \in {"stop", "err"} => Len(v) = (IF res.at <= Cardinality(Stored(bins)) THEN res.at ELSE Cardinality(Stored(bins))))
-       /\ (res.kind = "nextall" => \A b \in DOMAIN bins : Cardinality({i \in 1..Len(v) : v[i][2] = b}) = (IF bins[b] = <<>> THEN 0 ELSE 1))
-       /\ (res.kind = "next" =>
+       /\ (kind = "none" => {v[i][1] : i \in 1..Len(v)} = Stored(bins))
+       /\ (kind \in {"stop", "err"} => Len(v) = (IF at <= Cardinality(Stored(bins)) THEN at ELSE Cardinality(Stored(bins))))
+       /\ (kind = "nextall" => \A b \in DOMAIN bins : Cardinality({i \in 1..Len(v) : v[i][2] = b}) = (IF bins[b] = <<>> THEN 0 ELSE 1))
+       /\ (kind = "next" =>
              \A b \in DOMAIN bins :
                 \/ Cardinality({i \in 1..Len(v) : v[i][2] = b}) = Len(bins[b])
-                \/ /\ Len(v) >= res.at /\ v[res.at][2] = b                       \* the bin of the at-th call ...
-                   /\ \A i \in 1..Len(v) : v[i][2] = b => i <= res.at)           \* ... is left right after it
-       /\ (res.err <=> (res.kind = "err" /\ Len(v) = res.at))
+                \/ /\ Len(v) >= at /\ v[at][2] = b                       \* the bin of the at-th call ...
+                   /\ \A i \in 1..Len(v) : v[i][2] = b => i <= at)           \* ... is left right after it
+       /\ (err <=> (kind = "err" /\ Len(v) = at))
+
+IterContract == \A d \in Dirs, sc \in Scripts : IterContractFor(d, sc[1], sc[2])
+
+\* the queries answer from the set
+QueryContract ==
+  /\ \A b \in 0..mb : Cardinality(BinSet(bins, b)) = BinLen(bins, b)
+  /\ Cardinality(Stored(bins)) = Total(bins)
+  /\ LET se == ShallowestEmptyOf(mb, bins)
+     IN IF se[2] THEN \A b \in 0..(mb - 1) : bins[b] # <<>>
+        ELSE bins[se[1]] = <<>> /\ \A b \in 0..(se[1] - 1) : bins[b] # <<>>
+
+DesignView == <<mb, bins>>
 
 \* only mutations change the set, exactly as a set would change
 FrameOK ==
